@@ -108,6 +108,7 @@ def run(ctx):
     ctx.ob('C25-SQLITE.python-slicing-used', ps, rets[0] if rets else ps.node, ok, '' if ok else 'py_string_slice does not return s[start:end]')
     # ---------------------------------------------------------------- FIXED
     C05.fixed_rule(ctx, prefix='C25-FIXED')
+    C05.embedded_rule(ctx, prefix='C25-FIXED')
 
 
 def bodies(node):
